@@ -22,6 +22,7 @@ type smop struct {
 func (o smop) String() string { return fmt.Sprintf("%s(%d)", o.Kind, o.Seat) }
 
 type smfail struct {
+	Known    string `json:"known,omitempty"` // id of the recorded finding whose failure pattern this is
 	Property string `json:"property"`
 	Check    string `json:"check"`
 	Msg      string `json:"message"`
@@ -72,13 +73,15 @@ func smStep(sm *SeatManager, sh *smshadow, o smop, prop string) (f *smfail, acce
 	}()
 	n := sm.max
 	occBefore := 0
-	var playable []int
+	var playable, waiting []int
 	for i := 0; i < n; i++ {
 		if sm.seats[i].Player != nil {
 			occBefore++
 		}
 		if smPlayable(sm.seats[i]) {
 			playable = append(playable, i)
+		} else if sm.seats[i].Player != nil && !sm.seats[i].IsReserved && !sm.seats[i].IsActive {
+			waiting = append(waiting, i) // sat in on a seat that is switched off (late joiner)
 		}
 	}
 	switch o.Kind {
@@ -185,6 +188,7 @@ func smStep(sm *SeatManager, sh *smshadow, o smop, prop string) (f *smfail, acce
 		}
 		if err == nil {
 			accepted = true
+			prevDealer := sh.lastDealer
 			if sm.dealer != nil {
 				sh.lastDealer = sm.dealer.ID
 			}
@@ -219,6 +223,24 @@ func smStep(sm *SeatManager, sh *smshadow, o smop, prop string) (f *smfail, acce
 				} else if len(pl) >= 3 {
 					if sm.sb.ID != next(sm.dealer.ID) || sm.bb.ID != next(sm.sb.ID) {
 						fail("C08", "blinds-order", "%d seats can play %v: dealer %d, sb %d, bb %d (expected sb %d, bb %d)", len(pl), pl, sm.dealer.ID, sm.sb.ID, sm.bb.ID, next(sm.dealer.ID), next(next(sm.dealer.ID)))
+						// recorded finding F-HEADSUP-WITH-LATE-JOINER: exactly two seats could play when the blinds were
+						// laid out heads-up, and the same Next() then switched on a late joiner who sits behind the big blind
+						// (a joiner between the previous and the new dealer is switched on before the blinds are laid
+						// out; if such a seat shows up here something else is wrong)
+						joined := false
+						dist := func(from, to int) int { return ((to-from)%n + n) % n }
+						for _, w := range waiting {
+							if smPlayable(sm.seats[w]) {
+								joined = true
+								if prevDealer >= 0 && dist(prevDealer, w) > 0 && dist(prevDealer, w) < dist(prevDealer, sm.dealer.ID) {
+									joined = false
+									break
+								}
+							}
+						}
+						if f != nil && f.Check == "blinds-order" && len(playable) == 2 && joined && sm.sb == sm.dealer {
+							f.Known = "F-HEADSUP-WITH-LATE-JOINER"
+						}
 					}
 				}
 			}
@@ -263,6 +285,7 @@ func TestVerifSeatManagerBounded(t *testing.T) {
 		maxStates = 30000
 	}
 	var failure *smfail
+	known := map[string]*smfail{}
 	states, transitions, nexts := 0, 0, 0
 	for max := 3; max <= maxSeats && failure == nil; max++ {
 		var ops []smop
@@ -293,6 +316,13 @@ func TestVerifSeatManagerBounded(t *testing.T) {
 						nexts++
 					}
 					p2 := append(append([]smop{}, path...), o)
+					if f != nil && f.Known != "" {
+						if known[f.Known] == nil {
+							f.Max, f.Path = max, p2
+							known[f.Known] = f
+						}
+						continue // the history is not extended beyond a recorded finding
+					}
 					if f != nil {
 						f.Max, f.Path = max, p2
 						failure = f
@@ -309,8 +339,30 @@ func TestVerifSeatManagerBounded(t *testing.T) {
 		}
 		states += len(seen)
 	}
+	// canary of the recorded finding F-HEADSUP-WITH-LATE-JOINER: the smallest history known to show it (5 seats)
+	if prop == "" || prop == "C08" {
+		canary := []smop{{"join", 0}, {"join", 1}, {"join", 2}, {"join", 3}, {"seat", 0}, {"seat", 1}, {"seat", 2}, {"next", 0}, {"next", 0},
+			{"join", 4}, {"leave", 0}, {"leave", 1}, {"seat", 3}, {"seat", 4}, {"next", 0}}
+		if _, _, f := smReplay(5, canary, prop); f != nil {
+			f.Max, f.Path = 5, canary
+			if f.Known != "" {
+				if known[f.Known] == nil {
+					known[f.Known] = f
+				}
+			} else if failure == nil {
+				failure = f
+			}
+		}
+	}
 	rep := map[string]interface{}{"property": prop, "cases": transitions, "distinct_nontrivial": states, "states": states, "transitions": transitions, "next_calls": nexts,
 		"bound": fmt.Sprintf("tables of 3..%d seats, every sequence of join(seat / any / out of range), seat, reserve, leave, next up to depth %d, deduplicated on the observable state (at most %d states per table size)", maxSeats, depth, maxStates)}
+	if len(known) > 0 {
+		var kl []map[string]interface{}
+		for id, f := range known {
+			kl = append(kl, map[string]interface{}{"id": id, "input": map[string]interface{}{"max": f.Max, "path": f.Path}, "message": f.Check + ": " + f.Msg})
+		}
+		rep["known_findings"] = kl
+	}
 	if failure != nil {
 		rep["failure"] = failure
 		rep["message"] = failure.Check + ": " + failure.Msg
